@@ -77,7 +77,7 @@ CHECKS = {
    note="Sampling of histories. Reading or editing a message after a decode that failed midway is not part of the property (its state is unspecified); such accesses run protected and panics there are counted, not reported.",
    technique="deterministic simulation: seeded operation histories with injected failed decodes and buffer scribbles, compared against a fresh-message reference"),
  "C05": dict(level="exploration", ref="DESIGN.md section 4 (C05)",
-   text="Decides the first sentence of the property. The nondeterminism a marshal can see is put under the simulator's control: Go map hash seeds and iteration offsets (runtime seam, re-seeded before every marshal), construction history, lazy state, and process restarts. One seeded content is realised as 10-16 messages through different histories (other map hash seeds, Clone, Merge, eager / lazy-unexpanded / lazy-expanded decode, decode from a legal non-minimal encoding, field-by-field rebuild in shuffled order with set-clear-set, delete-reinsert and grow-past-8-then-shrink detours, dynamicpb variants) and marshalled with Deterministic under several map seeds and, for a share of scenarios, in re-executions of the same binary. All encodings within one concrete type must be byte-identical.",
+   text="Decides the first sentence of the property, and the second over the same construction histories (variants seen to encode identically must be Equal in both argument orders, also two untouched lazily decoded twins). The nondeterminism a marshal can see is put under the simulator's control: Go map hash seeds and iteration offsets (runtime seam, re-seeded before every marshal), construction history, lazy state, and process restarts. One seeded content is realised as 10-16 messages through different histories (other map hash seeds, Clone, Merge, eager / lazy-unexpanded / lazy-expanded decode, decode from a legal non-minimal encoding, field-by-field rebuild in shuffled order with set-clear-set, delete-reinsert and grow-past-8-then-shrink detours, dynamicpb variants) and marshalled with Deterministic under several map seeds and, for a share of scenarios, in re-executions of the same binary. All encodings within one concrete type must be byte-identical.",
    note="The converse clause (identical deterministic bytes imply proto.Equal) is checked over the same construction histories (all variants of one content, once seen to encode identically, must be Equal in both argument orders); arbitrary unrelated input pairs with colliding encodings are not searched for. Sampling of contents and histories; a divergence that does not replay would mean nondeterminism from outside the seams and is itself reported.",
    technique="deterministic simulation: seeded construction histories, seeded Go map iteration order and process restarts; byte-equality oracle within each concrete type"),
  "C40": dict(level="exploration", ref="DESIGN.md section 4 (C40)",
@@ -125,7 +125,7 @@ def main():
         "setup_cmd": "./check setup",
         "hooks": {
             "guard": "pbsim-overlay (no source change in /repo: instrumentation is applied at check time with go build -overlay)",
-            "enable": "./check <ID> quick|thorough rewrites the imports of sync and sync/atomic in a copy of every non-test file of /repo's working tree, maps the shim packages into google.golang.org/protobuf/internal/ and patches four GOROOT runtime files, all through one go build -overlay file under /verif/.work",
+            "enable": "./check <ID> quick|thorough rewrites the imports of sync and sync/atomic in a copy of every non-test file of /repo's working tree, maps the shim packages into google.golang.org/protobuf/internal/ and patches six GOROOT runtime files (map hash seeds and iteration offsets) and adds one, all through one go build -overlay file under /verif/.work",
             "baseline_off_cmd": "for m in $(cat /w/out/gomods.txt); do MF=$(cd /repo/$m && . /w/out/goenv.sh && gomodflag); (cd /repo/$m && go test $MF -json -vet=off -count=1 -timeout 25m ./...); done",
             "source_commits": [],
             "add_only": True,
